@@ -285,8 +285,14 @@ def run_case(kind, p):
     with warnings.catch_warnings():
         warnings.simplefilter("ignore")
         try:
-            matches, unmatched, weak = m.full_match(centers=pts, zero=np.asarray(p["zero"]), cand=p["cand"], refineds=pts,
-                                                    peak_values=np.ones(len(pts)), peak_elevations=elev)
+            if p.get("centers_dtype"):
+                # integer peak centres exactly as the correlation functions return them (narrow integer dtype), no refined positions
+                matches, unmatched, weak = m.full_match(centers=pts.astype(p["centers_dtype"]), zero=np.asarray(p["zero"]),
+                                                        cand=p["cand"], peak_values=np.ones(len(pts)),
+                                                        peak_elevations=elev.astype(np.float32))
+            else:
+                matches, unmatched, weak = m.full_match(centers=pts, zero=np.asarray(p["zero"]), cand=p["cand"], refineds=pts,
+                                                        peak_values=np.ones(len(pts)), peak_elevations=elev)
         except Exception as e:
             return [f"full_match raised {type(e).__name__}: {e}"]
     zsel = np.array([np.allclose(q, p["zero"]) for q in pts])
@@ -325,7 +331,7 @@ def run_case(kind, p):
     if p["kind"] == "clean":
         if not matches:
             msgs.append("noise-free lattice: no match found")
-        elif not matches[0].selector.all() or not matches[0].error < 1e-6:
+        elif not matches[0].selector.all() or not matches[0].error < (1e-3 if p.get("centers_dtype") else 1e-6):
             msgs.append(f"noise-free lattice of {len(pts)} points: first match has {len(matches[0])} points, error {matches[0].error}")
     return msgs[:6]
 
@@ -357,6 +363,19 @@ def search(ctx, boost=1, focus=()):
              "cand": [vec(phi - cand_ang / 2).tolist(), vec(phi + cand_ang / 2).tolist()]}
         ctx.oracle_case("cloud", p, run_case("cloud", p), nontrivial=True)
         ctx.count("oracle_shallow")
+    # noise-free lattices on a large detector, given as the integer centres the correlation returns (int16 / int32 / uint16):
+    # a zero point with first-order reflections a few hundred pixels apart, small blocks of cells
+    for k in range(4 * boost):
+        a = np.array([int(rng.integers(185, 320)), int(rng.integers(-40, 41))])
+        b = np.array([int(rng.integers(-40, 41)), int(rng.integers(185, 320))])
+        z = np.array([int(rng.integers(480, 560)), int(rng.integers(480, 560))])
+        idx = [[(1, 0), (-1, 0), (0, 1), (0, -1)], [(1, 0), (0, 1), (1, 1)], [(1, 0), (0, 1)], [(1, 0), (0, 1), (1, 1), (-1, 0)]][k % 4]
+        pts = np.array([z] + [z + i * a + j * b for i, j in idx], dtype=np.float64)
+        p = {"pts": pts, "elev": np.ones(len(pts)), "zero": z.astype(np.float64), "kind": "clean", "true_a": a, "true_b": b,
+             "tolerance": 2.0, "min_match": 3, "min_angle": float(np.pi / 10), "min_delta": 0.0, "max_delta": float("inf"),
+             "min_points": 10, "cand": None, "centers_dtype": ("int16", "int16", "int32", "uint16")[(k // 4 + k) % 4]}
+        ctx.oracle_case("cloud", p, run_case("cloud", p), nontrivial=True)
+        ctx.count("oracle_integer_centres")
     # sparse integer clouds (cheap): the re-matching rounds of the candidate search may re-index the same peaks
     corpus = [[[19, 56], [62, 27], [63, 34], [18, 33], [21, 59], [6, 14]],
               [[5, 41], [37, 18], [5, 6], [22, 23], [60, 50], [21, 29], [35, 8], [33, 4]],
